@@ -487,4 +487,30 @@ Section Compose.
     - intro Hin. exact (proj2 (ei_idle _ H Hin)).
     - exists tail. split; assumption.
   Qed.
+
+  (* a complete frame the transport has already returned comes out of the very next recv_packet()/next() call, however
+     many earlier calls were cancelled: nothing stays stuck in the consumer *)
+  Lemma pending_event_is_delivered_proof : forall c0 ls,
+    R c0 [] 0 ->
+    let es := erun S into latching (einit c0) ls in
+    G (delivered (sk es)) ->
+    einrecv es = false ->
+    forall r, nth_error (spec (returned (sk es))) (length (events es)) = Some r ->
+      events (estep S into latching es ERecvPacket) = events es ++ [r].
+  Proof.
+    intros c0 ls HR es HG Hin r Hnth.
+    pose proof (erun_inv ls (einit c0) (einv_init c0 HR) HG) as H. fold es in H.
+    destruct (ei_idle _ H Hin) as (Hp & HRel).
+    assert (HGr : G (returned (sk es))) by (apply G_returned; [exact (ei_inv _ H) | exact HG]).
+    simpl. unfold erecv_packet. rewrite Hin.
+    destruct (sdrain S (ec es)) as [c' r0] eqn:Hdr.
+    pose proof (okr_drain _ _ _ _ _ OK (ec es) (returned (sk es)) (length (events es)) c' r0 HGr HRel Hdr) as Hd.
+    destruct r0.
+    - destruct Hd as (Hn & _). rewrite events_snoc_event. congruence.
+    - destruct Hd as (Hn & _). rewrite events_snoc_event. congruence.
+    - destruct Hd as (Hk & _). exfalso. rewrite Hk in Hnth.
+      assert (nth_error (spec (returned (sk es))) (length (spec (returned (sk es)))) = None) by (apply nth_error_None; lia).
+      congruence.
+    - destruct Hd as (Hn & _). rewrite events_snoc_event. congruence.
+  Qed.
 End Compose.
